@@ -13,7 +13,7 @@ prop(
              quick=dict(checks=320, shards=16, timeout=900),
              thorough=dict(checks=4800, shards=16, timeout=3600)),
         dict(run="^TestPropChecks$",
-             quick=dict(checks=330, shards=8, timeout=900),
+             quick=dict(checks=440, shards=8, timeout=900),
              thorough=dict(checks=48000, shards=16, timeout=5400)),
         dict(run="^TestFaultTable$",
              thorough=dict(shards=16, timeout=3600)),
@@ -24,7 +24,10 @@ prop(
          "call through FailoverGroup; judged from each listening upstream's request log (contacted or not, order) and the returned answer/error. "
          "Non-trivial: >=2 upstreams, the first one unavailable and a later one not (a failover decision is actually taken). part 2: 11 check "
          "constructors taking a Prometheus server (10 online checks + rule/duplicate) x generated alerting/recording rules (18 expressions covering "
-         "absent, rate/irate/deriv, counters, vector matching, long ranges, plain selectors; for/labels/annotations variants) x 1-3 upstreams all in "
+         "absent, rate/irate/deriv, counters, vector matching, long ranges, plain selectors; for/labels/annotations variants) x the checks' documented settings (half of the cases: promql/series ignoreMetrics / lookbackRange / lookbackStep / "
+         "ignoreLabelsValue through the context as the config block does, alerts/count range/step/resolve/minCount/severity/comment, query/cost limits/"
+         "severity/comment, promql/range_query limit/severity/comment) and, for promql/series, `# pint disable promql/series(bar)` / `rule/set ... "
+         "ignore/label-value|min-age` comments that cover only part of the rule (always matching a checked selector) x 1-3 upstreams all in "
          "{refused, 500, 503, server_error, timeout} x required: no panic, every problem is 'unable to run checks' with severity Warning (Bug iff "
          "required). Non-trivial (part 2): the check actually contacted an upstream. Classes: failover:<H|U|Q|T|N per upstream> and "
          "checks:<check>:<contacted|nocontact>:<reported|silent>.",
